@@ -11,6 +11,7 @@
 
 mod gen;
 mod model;
+mod prace;
 mod race;
 
 use gen::{Case, Op, TxSpec, W, PUT_KEYS};
@@ -957,11 +958,14 @@ fn main() {
             "participant-side unilateral cleanup (cleanup_stale / recover) and coordinator restart are outside the quantifier and are not generated",
             "a transaction whose duplicated Prepare and duplicated Commit are both delivered is applied twice on that shard; the model follows the participant's reported applications in order (counted, not a violation of this property)",
             "liveness is not asserted: lost messages may leave transactions undecided or participants prepared; only 'decided and nothing lost' end states are checked",
+            "prace: 2-3 threads run 1-2 transactions each (Put over 2 shared keys, prepare then commit or abort) against one real TxParticipant under the deterministic scheduler at the dtx.part.* hooks; the order of Yes votes on a key is taken as the order of its writes (key locks are exclusive from the vote to the end of commit/abort)",
         ],
         parts: vec![
             PropPart::new("sim", 50_000, 1_200_000, gen::case_strategy, run_case).shrink_iters(4000).boxed(),
             // threads interleaved inside coordinator commit()/abort() (scheduler + yield hooks)
             PropPart::new("race", 3000, 60_000, |_| race::strategy(), race::check).shrink_iters(60).boxed(),
+            // threads interleaved inside ONE participant's prepare()/commit()/abort()
+            PropPart::new("prace", 6000, 120_000, |_| prace::strategy(), prace::check).shrink_iters(200).boxed(),
         ],
         children: vec![],
     });
